@@ -658,7 +658,10 @@ def run(ctx):
         'from %s). Held Deferreds: 2 in flight x both firing orders x '
         '{value, failure, unencodable value}^2 x reply flags. Calls are real '
         'bytes (flags byte included) through dataReceived; replies are read '
-        'with the reference parser. Long-lived connection: 60..600 cycles '
+        'with the reference parser. Lifecycle: a method that unexports its '
+        'own object and then returns / raises; a held Deferred whose object '
+        'is unexported (or replaced at its path) before it fires / fails. '
+        'Long-lived connection: 60..600 cycles '
         'of export / call own and foreign member / unexport of short-lived '
         'objects of two classes, 0, 7 or 40 of them live at a time. '
         'state = history; transition = executed '
@@ -673,6 +676,7 @@ def run(ctx):
     ctx.map(_task_deferred, [0])
     ctx.map(_task_composed, [0])
     ctx.map(_task_churn, CHURN)
+    ctx.map(_task_lifecycle, LIFECYCLE)
     ctx.bounds = {'call_pool': len(pool), 'history_length': 2}
 
 
@@ -899,6 +903,148 @@ def run_churn(cycles, live, same_path):
     return viol
 
 
+def run_lifecycle(case):
+    """calls whose object leaves the export table before the result is
+    there: a Close()-style method that unexports its own object and then
+    returns a value or raises; a method that returns a Deferred, with the
+    object unexported (and possibly another one exported at the path)
+    before the Deferred fires.  The call was dispatched: it gets its one
+    reply, with its serial, addressed to the caller"""
+    from twisted.internet import defer
+    from txdbus import objects as O, interface as I
+    viol = []
+    w = fakes.ClientWorld()
+    try:
+        w.sent()
+        ifc = I.DBusInterface(
+            'org.ex.Life', I.Method('Close', '', 's'),
+            I.Method('CloseFail', '', ''), I.Method('Later', 's', 's'),
+            I.Method('Ping', '', 's'), noRegister=True)
+        ran = []
+        held = []
+
+        class Obj(O.DBusObject):
+            dbusInterfaces = [ifc]
+
+            def __init__(self, path, tag):
+                O.DBusObject.__init__(self, path)
+                self.tag = tag
+
+            def dbus_Close(self):
+                ran.append(self.tag + '.Close')
+                w.conn.unexportObject(self.getObjectPath())
+                return 'closed-' + self.tag
+
+            def dbus_CloseFail(self):
+                ran.append(self.tag + '.CloseFail')
+                w.conn.unexportObject(self.getObjectPath())
+                raise ValueError('closing failed')
+
+            def dbus_Later(self, s):
+                ran.append(self.tag + '.Later')
+                d = defer.Deferred()
+                held.append((d, s))
+                return d
+
+            def dbus_Ping(self):
+                ran.append(self.tag + '.Ping')
+                return self.tag
+        w.conn.exportObject(Obj('/life', 'first'))
+        w.sent()
+        serial = [3000]
+
+        def call(member, sig='', body=()):
+            serial[0] += 1
+            w.conn.dataReceived(R.encode_message(
+                R.METHOD_CALL, serial[0],
+                {'path': '/life', 'member': member,
+                 'interface': 'org.ex.Life', 'sender': CALLER,
+                 'destination': ':1.7'}, sig, list(body)))
+            return serial[0]
+
+        def replies(s):
+            return [m for m in w.sent()
+                    if m['fields'].get('reply_serial') == s]
+
+        def want_one(s, msgs, kind, body=None, err=None):
+            ok = len(msgs) == 1 and msgs[0]['type'] == kind and \
+                msgs[0]['fields'].get('destination') == CALLER and \
+                (body is None or msgs[0]['body'] == body) and \
+                (err is None or msgs[0]['fields'].get('error_name') == err)
+            if not ok:
+                viol.append(('lifecycle/%s' % case,
+                             'case %s: call %d was answered %r, expected '
+                             'one %s' % (case, s, [_b(m) for m in msgs],
+                                         'return %r' % (body,) if kind == 2
+                                         else 'error ' + str(err))))
+        if case == 'close':
+            s = call('Close')
+            want_one(s, replies(s), 2, ['closed-first'])
+        elif case == 'close-fail':
+            s = call('CloseFail')
+            want_one(s, replies(s), 3,
+                     err='org.txdbus.PythonException.ValueError')
+        elif case in ('later-unexport', 'later-unexport-fail',
+                      'later-replace'):
+            s = call('Later', 's', ['x'])
+            first = replies(s)
+            if first:
+                viol.append(('lifecycle/%s/early' % case,
+                             'a reply was written before the Deferred '
+                             'fired: %r' % [_b(m) for m in first]))
+            w.conn.unexportObject('/life')
+            if case == 'later-replace':
+                w.conn.exportObject(Obj('/life', 'second'))
+            w.sent()
+            d, arg = held[0]
+            if case == 'later-unexport-fail':
+                d.errback(ValueError('late failure'))
+                want_one(s, replies(s), 3,
+                         err='org.txdbus.PythonException.ValueError')
+            else:
+                d.callback(arg + '!')
+                want_one(s, replies(s), 2, ['x!'])
+        # afterwards the path answers according to what is exported there
+        s = call('Ping')
+        msgs = replies(s)
+        if case == 'later-replace':
+            want_one(s, msgs, 2, ['second'])
+        else:
+            want_one(s, msgs, 3,
+                     err='org.freedesktop.DBus.Error.UnknownObject')
+        want_ran = {'close': ['first.Close'],
+                    'close-fail': ['first.CloseFail'],
+                    'later-unexport': ['first.Later'],
+                    'later-unexport-fail': ['first.Later'],
+                    'later-replace': ['first.Later', 'second.Ping']}[case]
+        if ran != want_ran:
+            viol.append(('lifecycle/%s/invocations' % case,
+                         'implementations ran %r, expected %r'
+                         % (ran, want_ran)))
+    except Exception as e:
+        viol.append(('lifecycle/%s/raises-%s' % (case, type(e).__name__),
+                     '%r' % (e,)))
+    finally:
+        w.close()
+    return viol
+
+
+LIFECYCLE = ['close', 'close-fail', 'later-unexport', 'later-unexport-fail',
+             'later-replace']
+
+
+def _task_lifecycle(case):
+    res = core.Result()
+    res.count('states')
+    res.count('transitions', 4)
+    res.count('evaluations', 2)
+    res.count('nontrivial')
+    for t, w in run_lifecycle(case):
+        res.violation('%s/%s' % (PROP, t), w, {'part': 'lifecycle',
+                                               'case': case}, size=1)
+    return res
+
+
 CHURN = [(60, 0, True), (200, 0, False), (300, 7, False), (600, 40, False)]
 
 
@@ -933,6 +1079,9 @@ def _task_composed(_):
 
 
 def replay(data):
+    if data['part'] == 'lifecycle':
+        return [('%s/%s' % (PROP, t), w) for t, w in
+                run_lifecycle(data['case'])]
     if data['part'] == 'churn':
         return [('%s/%s' % (PROP, t), w) for t, w in
                 run_churn(*data['args'])]
